@@ -152,11 +152,14 @@ def build(rng, kind, nin=1, pos=0, ht=1, mutate=None, annex=None, enc=None, wn=3
     elif kind == "p2pk":
         sk, pk = K.new(); spk = push(pk) + b"\xac"
     elif kind == "bare-if":         # no signatures: conditionals / alt stack inside or across the two scripts
-        spk = {None: b"\x63\x51\x68", "openif": b"\x68\x51", "altcarry": b"\x6c", "altown": b"\x51\x6b\x6c"}[mutate]
+        spk = {None: b"\x63\x51\x68", "openif": b"\x68\x51", "altcarry": b"\x6c", "altown": b"\x51\x6b\x6c",
+               "nosig-true": b"\x51", "nosig-return": b"\x6a", "nosig-false": b"\x00", "nosig-depth": b"\x74\x00\x87"}[mutate]
     elif kind == "bare-big":        # a scriptPubKey of exactly wn bytes (few operations): 19 x (520-byte push, DROP), a filler push, DROP, OP_1
         L = wn - 1 - 19 * 524
         spk = (b"\x4d\x08\x02" + bytes(520) + b"\x75") * 19 + push(bytes(L - 2)) + b"\x75" + b"\x51"
         assert len(spk) == wn
+    elif kind == "bare-fad":        # FindAndDelete: the scriptSig itself runs CHECKSIGVERIFY and contains pushes of the signature it verifies
+        sk, pk = K.new(); spk = b"\x75\x51"
     elif kind == "p2wsh-hashlock":  # a witness script that has the byte shape of pay-to-script-hash: an ordinary hash lock
         preimage = bytes([0x6a]) + bytes(rng.randrange(256) for _ in range(rng.randrange(0, 4)))      # would fail if run as a script
         ws = bytes([0xa9, 20]) + h160(preimage) + b"\x87"; prog = b"\x00\x20" + sha(ws); spk = prog
@@ -233,8 +236,9 @@ def build(rng, kind, nin=1, pos=0, ht=1, mutate=None, annex=None, enc=None, wn=3
         tx.vin[pos][2] = push(sig) + (push(pk) if kind == "p2pkh" else b"")
     elif kind == "bare-if":
         # OP_1 | OP_1 OP_IF (left open: UNBALANCED_CONDITIONAL) | OP_1 OP_TOALTSTACK (the scriptPubKey has its own, empty alt stack) | OP_NOP
-        tx.vin[pos][2] = {None: b"\x51", "openif": b"\x51\x63", "altcarry": b"\x51\x6b", "altown": b"\x61"}[mutate]
-        valid = mutate in (None, "altown")
+        # ... | nosig-*: an EMPTY scriptSig (anyone-can-spend OP_1, OP_RETURN, OP_0, "the stack is empty": OP_DEPTH OP_0 OP_EQUAL) - the scriptPubKey must still run
+        tx.vin[pos][2] = {None: b"\x51", "openif": b"\x51\x63", "altcarry": b"\x51\x6b", "altown": b"\x61"}.get(mutate, b"")
+        valid = mutate in (None, "altown", "nosig-true", "nosig-depth")
     elif kind == "bare-big":
         tx.vin[pos][2] = b"\x61"
         valid = wn <= 10000
@@ -244,6 +248,14 @@ def build(rng, kind, nin=1, pos=0, ht=1, mutate=None, annex=None, enc=None, wn=3
     elif kind == "p2wsh-item":
         tx.wit[pos] = [bytes(wn), ws]
         valid = wn <= 520
+    elif kind == "bare-fad":
+        # the script code is the scriptSig with every push of the signature removed - wherever it stands: first, in the middle, LAST
+        tail = {0: b"", 1: b"\x61", 2: b""}[wn % 3]                                         # what follows the second push of the signature
+        body = push(pk) + (b"\x61\xad" if wn % 3 == 2 else b"\xad")                         # <pk> [NOP] CHECKSIGVERIFY
+        usk = sk if mutate != "wrongkey" else rng.randrange(1, R.N)
+        sig = ecdsa(usk, legacy_digest(tx, pos, body + tail, ht), ht)
+        tx.vin[pos][2] = push(sig) + body + push(sig) + tail                                # wn%3 = 0, 2: the push is the very end of the script; 1: a NOP follows
+        needs_off |= F_CONST
     elif kind == "multisig":
         d = legacy_digest(tx, pos, spk, ht)
         order = sorted(rng.sample(range(3), 2))
@@ -289,6 +301,12 @@ def build(rng, kind, nin=1, pos=0, ht=1, mutate=None, annex=None, enc=None, wn=3
             tsk = (tsk + int.from_bytes(tagged("TapTweak", p), "big")) % R.N
             if mutate == "wrongkey": tsk = rng.randrange(1, R.N)
             sig = R.schnorr_sign(d, tsk) if d is not None else bytes(64)
+            if enc == "sig50" and d is not None:
+                # a valid signature whose first byte is the annex tag 0x50 (one in 256; found by varying the auxiliary randomness): with a
+                # single witness item it is a signature, not an annex (BIP341 needs at least two items for an annex)
+                for k in range(1, 4000):
+                    sig = R.schnorr_sign(d, tsk, aux=k.to_bytes(32, "big"))
+                    if sig[0] == 0x50: break
             if d is None: valid = False
             if mutate == "sigbyte":
                 b = bytearray(sig); b[5] ^= 1; sig = bytes(b)
